@@ -1,10 +1,12 @@
 from props_common import BASE_TB
 
 PROP = {
-    "modules": ["YorkieModel.Props.C16"],
+    "modules": ["YorkieModel.Props.C16", "YorkieModel.Props.C16Locker"],
     "engines": [
         # one trace = one free-running load run (N clients x M documents, compaction, housekeeping,
-        # snapshots, yields injected at lock boundaries) on a real in-process server
+        # snapshots, yields injected at lock boundaries) on a real in-process server; after the loads
+        # every worker runs the three forced interleavings `REPRO last-detachers` (two last holders of a
+        # document leave a RemoveOnDetach project without attachment limit concurrently; +3 traces, ~0.3 s)
         {"name": "locks",
          "quick": {"n": 48, "workers": 8},
          "thorough": {"n": 720, "workers": 8},
@@ -12,6 +14,12 @@ PROP = {
          # under the Go race detector, thorough tier only (check.py builds .build/yk-harness-race)
          "thorough_race": {"n": 72, "workers": 4, "binary": "yk-harness-race",
                            "env": {"GORACE": "log_path={out}/race halt_on_error=0"}}},
+        # pkg/locker itself: scripted episodes (2-4 goroutines, 1-2 names, every call released step by step,
+        # outcome + map content predicted by Model/NamedLocker.lean) + one free-running STRESS trace per worker
+        # (holder / parked waiter / TryLock poller: hits the hand-off window; oracle only)
+        {"name": "locker",
+         "quick": {"n": 800, "workers": 4},
+         "thorough": {"n": 40000, "workers": 8}},
     ],
     "extra_builds": [{"name": "yk-harness-race", "flags": ["-race"], "tiers": ["thorough"]}],
     "generated_obligations": [],
@@ -19,7 +27,15 @@ PROP = {
         "factgen/locks.go: syntactic extraction (go/ast) of `….Lockers.Locker/LockerWithRLock/LockerWithTryLock(KeyCtor(…))` sites, "
         "deferred releases and the name-resolved call graph of server/**; calls through interfaces and function values are not followed "
         "(the theorem `extraction_complete` only shows that no other *syntactic* use of `Lockers` exists); tied to the running code by the "
-        "recorded acquisition sequences (`SEQ` lines: every observed per-request sequence must be an instance of the extracted script)",
+        "recorded acquisition sequences (`SEQ` lines: every observed per-request sequence must be an instance of the extracted script); "
+        "`Site.cond` is the SOURCE TEXT of the enclosing if/case conditions (whitespace collapsed): an equivalent condition written differently "
+        "fails `attachment_lock_conditions` and has to be re-reviewed against the expectation table (intended); early returns before an "
+        "acquisition are not part of the condition; tied to the running code by the forced interleaving `REPRO last-detachers`",
+        "Model/NamedLocker.lean: pkg/locker at the granularity of its own `Locker.mu` sections + the inner-mutex operations; sync.RWMutex/sync.Mutex "
+        "themselves are trusted (an inner mutex is `writer : Option session, readers : List session`; release and acquisition are separate steps, "
+        "any enabled waiter may win); Driver/LockerEngine.lean adds Go's grant policy (writer preference, readers first after an exclusive release, "
+        "parked writers FIFO) to predict the scripted episodes – that policy is an observation about the Go runtime, not a theorem; "
+        "the harness reads `Locker.locks` and `lockCtr.waiters` by reflection (read only, at rest)",
         "Model/Locks.lean lock table: every named lock is a Go sync.RWMutex with writer preference (pending writer blocks new readers), "
         "TryLock never blocks; which waiter is granted is left nondeterministic; a thread = one request goroutine executing the flattened "
         "script of its handler; waiting for an intra-cluster RPC is modelled by inlining the callee's script into the caller",
@@ -31,9 +47,18 @@ PROP = {
                   "with writer preference and try-locks excludes every stuck state and bounds every run, hence every request completes; "
                   "(by evaluation over the lock table regenerated from the Go source on every run) every extracted function's flattened "
                   "acquisition script respects doc < pull < attachment < push except the derived, listed inversion set, every site is "
-                  "released by an adjacent matching `defer`, snapshot/housekeeping locks are try-only; "
+                  "released by an adjacent matching `defer`, snapshot/housekeeping locks are try-only; every OPTIONAL acquisition (doc.attachment "
+                  "in attach/detach/remove/admin update, doc.push in pushPack) is taken under exactly the expected condition, written down per handler "
+                  "with the check-then-act pair it makes atomic (`attachment_lock_conditions`, `conditional_acquisitions_expected`); "
+                  "(named-lock layer, unbounded sessions and interleavings, induction over the package's own mutex sections) pkg/locker's reference "
+                  "count equals the number of users (+ references leaked by failed TryLocks), an entry in use is never deleted or replaced, a holder's "
+                  "Unlock never returns ErrNoSuchLock, mutual exclusion per name; the variant `TryLock takes a reference only on creation` is refuted "
+                  "by a three-party schedule; "
                   "tie: lock recorder on a real server under free-running parallel load – every observed per-request sequence is an "
-                  "instance of the extracted script and ordered; completion watchdog, replica convergence and change-log shape oracles.",
+                  "instance of the extracted script and ordered; completion watchdog, replica convergence and change-log shape oracles; "
+                  "forced interleaving of the two last detachers of a RemoveOnDetach document (outcome predicted from the extracted condition, "
+                  "oracle: removed once nobody holds it); scripted + free-running episodes on the real pkg/locker (every call outcome and the "
+                  "map's waiters predicted by the model; oracle: no ErrNoSuchLock for a holder, never two holders).",
     "level_note": "Trusted: Lean kernel; syntactic extraction + name-based call graph (tied by recorded sequences, not proved complete); "
                   "lock-table model of sync.RWMutex. Data-race freedom is NOT a theorem (Go memory model): race detector runs are "
                   "exploration evidence only.",
@@ -49,6 +74,11 @@ PROP = {
     "not_modelled": [
         "mutexes other than the named Lockers (cmap shards, pubsub, caches, memdb, SDK) and channel/WaitGroup waits",
         "loops over documents inside one request (Deactivate detaches every attached document through one RPC each): one iteration is modelled",
+        "the SEMANTICS of the conditions of optional acquisitions (what HasAttachmentLimit()/RemoveOnDetach evaluate to): only their source text is a fact; "
+        "the atomicity the doc.attachment lock buys is exercised for the RemoveOnDetach detach/detach, detach/deactivate and deactivate/deactivate pairs only "
+        "(not: attach vs last detach, the attachment-limit count, the schema check of admin UpdateDocument)",
+        "pkg/locker: the hand-off window of sync.Mutex (a TryLock barging between a release and the wake-up of a parked waiter) cannot be scripted step by step; "
+        "it is in the model (separate release / acquire steps) and is reached on the real code only by the free-running STRESS share",
     ],
     "assumptions": [
         "each request runs on its own goroutine and executes a subsequence of its handler's extracted script (checked on every recorded sequence)",
